@@ -88,7 +88,7 @@ def canonIter (cfg : Cfg) : Nat → List Char → List Char
 
 /-- utils.CanonicalPath -/
 def canonicalPath (cfg : Cfg) (p : List Char) : List Char :=
-  if cfg.loops then canonIter cfg (p.length + 2) p else canonStep cfg p
+  if cfg.loops then canonIter cfg (p.length + 3) p else canonStep cfg p
 
 /-! ASCII instance used by the driver (the harness only generates ASCII) -/
 def asciiSpace (c : Char) : Bool :=
